@@ -54,6 +54,7 @@ type kState struct {
 	slice        string // the mutable slice (an entry of kernelSpec.slices)
 	size         string // the size field ("" when not used)
 	outSize      bool   // the function assigns the size: it is an output
+	outOnly      bool   // the slice is only assigned (never read): an output, not a parameter
 	ignoreCalls  []string
 	ignoreAssign []string
 	setter       string // method of an element that assigns ..
@@ -138,6 +139,9 @@ func (t *ktr) listExpr(e ast.Expr) string {
 	case *ast.Ident:
 		if _, isNil := t.info.Uses[x].(*types.Nil); isNil {
 			return "[]"
+		}
+		if name, ok := t.vars[t.info.Uses[x]]; ok && t.names[name].k == kList && t.names[name].elem == t.stateSlice().elem {
+			return name
 		}
 	case *ast.CompositeLit:
 		if len(x.Elts) == 0 {
